@@ -159,7 +159,7 @@ package kvql
 //@   ensures[C05] addfresh: ctx != nil ==> (forall S B :: has(ctx.FieldChunkKeyCaches, S) ==> (old(has(ctx.FieldChunkKeyCaches, S)) && ctx.FieldChunkKeyCaches[S] == old(ctx.FieldChunkKeyCaches[S])) || fresh(ctx.FieldChunkKeyCaches[S]))
 //@   requires wfBin(e)
 //@   assigns ctx.Hit, mapof(ctx.FieldCaches), mapof(ctx.FieldChunkKeyCaches), mapof(ctx.FieldChunkCaches)
-//@   ensures[C03] same: err == nil ==> len(ret) == len(chunk) && (forall i Int :: 0 <= i && i < len(chunk) ==> lokI(e, chunk, i) && rokI(e, chunk, i) && eqKinds(lvI(e, chunk, i), rvI(e, chunk, i)) && ret[i] == ABool(ite(not, !eqVal(lvI(e, chunk, i), rvI(e, chunk, i)), eqVal(lvI(e, chunk, i), rvI(e, chunk, i)))))
+//@   ensures[C03] _same: err == nil ==> len(ret) == len(chunk) && (forall i Int :: 0 <= i && i < len(chunk) ==> lokI(e, chunk, i) && rokI(e, chunk, i) && eqKinds(lvI(e, chunk, i), rvI(e, chunk, i)) && ret[i] == ABool(ite(not, !eqVal(lvI(e, chunk, i), rvI(e, chunk, i)), eqVal(lvI(e, chunk, i), rvI(e, chunk, i)))))
 //@   use forall i Int :: doc_bin(e, chunk[i])
 //@   ensures[C03] twin: err == nil && ((e.Op == Eq && !not) || (e.Op == NotEq && not)) ==> rowsOf(e, chunk, ret)
 //@   ensures own: err == nil ==> isnil(ret) || fresh(ret)
@@ -186,7 +186,7 @@ package kvql
 //@   ensures[C05] addfresh: ctx != nil ==> (forall S B :: has(ctx.FieldChunkKeyCaches, S) ==> (old(has(ctx.FieldChunkKeyCaches, S)) && ctx.FieldChunkKeyCaches[S] == old(ctx.FieldChunkKeyCaches[S])) || fresh(ctx.FieldChunkKeyCaches[S]))
 //@   requires wfBin(e)
 //@   assigns ctx.Hit, mapof(ctx.FieldCaches), mapof(ctx.FieldChunkKeyCaches), mapof(ctx.FieldChunkCaches)
-//@   ensures[C03] same: err == nil ==> len(ret) == len(chunk) && (forall i Int :: 0 <= i && i < len(chunk) ==> lokI(e, chunk, i) && rokI(e, chunk, i) && isText(lvI(e, chunk, i)) && isText(rvI(e, chunk, i)) && ret[i] == ABool(pre(textOf(rvI(e, chunk, i)), textOf(lvI(e, chunk, i)))))
+//@   ensures[C03] _same: err == nil ==> len(ret) == len(chunk) && (forall i Int :: 0 <= i && i < len(chunk) ==> lokI(e, chunk, i) && rokI(e, chunk, i) && isText(lvI(e, chunk, i)) && isText(rvI(e, chunk, i)) && ret[i] == ABool(pre(textOf(rvI(e, chunk, i)), textOf(lvI(e, chunk, i)))))
 //@   use forall i Int :: doc_bin(e, chunk[i])
 //@   ensures[C03] twin: err == nil && (e.Op == PrefixMatch) ==> rowsOf(e, chunk, ret)
 //@   ensures own: err == nil ==> isnil(ret) || fresh(ret)
@@ -213,7 +213,7 @@ package kvql
 //@   ensures[C05] addfresh: ctx != nil ==> (forall S B :: has(ctx.FieldChunkKeyCaches, S) ==> (old(has(ctx.FieldChunkKeyCaches, S)) && ctx.FieldChunkKeyCaches[S] == old(ctx.FieldChunkKeyCaches[S])) || fresh(ctx.FieldChunkKeyCaches[S]))
 //@   requires wfBin(e)
 //@   assigns ctx.Hit, mapof(ctx.FieldCaches), mapof(ctx.FieldChunkKeyCaches), mapof(ctx.FieldChunkCaches)
-//@   ensures[C03] same: err == nil ==> len(ret) == len(chunk) && (forall i Int :: 0 <= i && i < len(chunk) ==> lokI(e, chunk, i) && rokI(e, chunk, i) && isbool(lvI(e, chunk, i)) && isbool(rvI(e, chunk, i)) && ret[i] == ABool(ite(and, bval(lvI(e, chunk, i)) && bval(rvI(e, chunk, i)), bval(lvI(e, chunk, i)) || bval(rvI(e, chunk, i)))))
+//@   ensures[C03] _same: err == nil ==> len(ret) == len(chunk) && (forall i Int :: 0 <= i && i < len(chunk) ==> lokI(e, chunk, i) && rokI(e, chunk, i) && isbool(lvI(e, chunk, i)) && isbool(rvI(e, chunk, i)) && ret[i] == ABool(ite(and, bval(lvI(e, chunk, i)) && bval(rvI(e, chunk, i)), bval(lvI(e, chunk, i)) || bval(rvI(e, chunk, i)))))
 //@   use forall i Int :: doc_bin(e, chunk[i])
 //@   ensures[C03] twin: err == nil && (((e.Op == And || e.Op == KWAnd) && and) || ((e.Op == Or || e.Op == KWOr) && !and)) ==> rowsOf(e, chunk, ret)
 //@   ensures own: err == nil ==> isnil(ret) || fresh(ret)
@@ -238,7 +238,7 @@ package kvql
 //@   ensures[C05] addfresh: ctx != nil ==> (forall S B :: has(ctx.FieldChunkKeyCaches, S) ==> (old(has(ctx.FieldChunkKeyCaches, S)) && ctx.FieldChunkKeyCaches[S] == old(ctx.FieldChunkKeyCaches[S])) || fresh(ctx.FieldChunkKeyCaches[S]))
 //@   requires wfBin(e) && mathOp(op)
 //@   assigns ctx.Hit, mapof(ctx.FieldCaches), mapof(ctx.FieldChunkKeyCaches), mapof(ctx.FieldChunkCaches)
-//@   ensures[C03] same: err == nil ==> len(ret) == len(chunk) && (forall i Int :: 0 <= i && i < len(chunk) ==> lokI(e, chunk, i) && rokI(e, chunk, i) && isNum(lvI(e, chunk, i)) && isNum(rvI(e, chunk, i)) && !divByZero(op, rvI(e, chunk, i)) && ret[i] == ite(isInt(lvI(e, chunk, i)) && isInt(rvI(e, chunk, i)), AInt(intOp(op, intof(lvI(e, chunk, i)), intof(rvI(e, chunk, i)))), AFlt(fltOp(op, numOf(lvI(e, chunk, i)), numOf(rvI(e, chunk, i))))))
+//@   ensures[C03] _same: err == nil ==> len(ret) == len(chunk) && (forall i Int :: 0 <= i && i < len(chunk) ==> lokI(e, chunk, i) && rokI(e, chunk, i) && isNum(lvI(e, chunk, i)) && isNum(rvI(e, chunk, i)) && !divByZero(op, rvI(e, chunk, i)) && ret[i] == ite(isInt(lvI(e, chunk, i)) && isInt(rvI(e, chunk, i)), AInt(intOp(op, intof(lvI(e, chunk, i)), intof(rvI(e, chunk, i)))), AFlt(fltOp(op, numOf(lvI(e, chunk, i)), numOf(rvI(e, chunk, i))))))
 //@   use forall i Int :: doc_bin(e, chunk[i])
 //@   ensures[C03] twin: err == nil && ((e.Op == Sub || e.Op == Mul || e.Op == Div || (e.Op == Add && rtype(e.Left) != TSTR)) && op == opChar(e.Op)) ==> rowsOf(e, chunk, ret)
 //@   ensures own: err == nil ==> isnil(ret) || fresh(ret)
@@ -263,7 +263,7 @@ package kvql
 //@   ensures[C05] addfresh: ctx != nil ==> (forall S B :: has(ctx.FieldChunkKeyCaches, S) ==> (old(has(ctx.FieldChunkKeyCaches, S)) && ctx.FieldChunkKeyCaches[S] == old(ctx.FieldChunkKeyCaches[S])) || fresh(ctx.FieldChunkKeyCaches[S]))
 //@   requires wfBin(e) && relOp(val(op))
 //@   assigns ctx.Hit, mapof(ctx.FieldCaches), mapof(ctx.FieldChunkKeyCaches), mapof(ctx.FieldChunkCaches)
-//@   ensures[C03] same: err == nil ==> len(ret) == len(chunk) && (forall i Int :: 0 <= i && i < len(chunk) ==> lokI(e, chunk, i) && rokI(e, chunk, i) && isNum(lvI(e, chunk, i)) && isNum(rvI(e, chunk, i)) && ret[i] == ABool(ite(isInt(lvI(e, chunk, i)) && isInt(rvI(e, chunk, i)), intHolds(val(op), intof(lvI(e, chunk, i)), intof(rvI(e, chunk, i))), fltHolds(val(op), numOf(lvI(e, chunk, i)), numOf(rvI(e, chunk, i))))))
+//@   ensures[C03] _same: err == nil ==> len(ret) == len(chunk) && (forall i Int :: 0 <= i && i < len(chunk) ==> lokI(e, chunk, i) && rokI(e, chunk, i) && isNum(lvI(e, chunk, i)) && isNum(rvI(e, chunk, i)) && ret[i] == ABool(ite(isInt(lvI(e, chunk, i)) && isInt(rvI(e, chunk, i)), intHolds(val(op), intof(lvI(e, chunk, i)), intof(rvI(e, chunk, i))), fltHolds(val(op), numOf(lvI(e, chunk, i)), numOf(rvI(e, chunk, i))))))
 //@   use forall i Int :: doc_bin(e, chunk[i])
 //@   ensures[C03] twin: err == nil && (isOrderOp(e.Op) && rtype(e.Left) != TSTR && val(op) == opSym(e.Op)) ==> rowsOf(e, chunk, ret)
 //@   ensures own: err == nil ==> isnil(ret) || fresh(ret)
@@ -288,7 +288,7 @@ package kvql
 //@   ensures[C05] addfresh: ctx != nil ==> (forall S B :: has(ctx.FieldChunkKeyCaches, S) ==> (old(has(ctx.FieldChunkKeyCaches, S)) && ctx.FieldChunkKeyCaches[S] == old(ctx.FieldChunkKeyCaches[S])) || fresh(ctx.FieldChunkKeyCaches[S]))
 //@   requires wfBin(e) && relOp(val(op))
 //@   assigns ctx.Hit, mapof(ctx.FieldCaches), mapof(ctx.FieldChunkKeyCaches), mapof(ctx.FieldChunkCaches)
-//@   ensures[C03] same: err == nil ==> len(ret) == len(chunk) && (forall i Int :: 0 <= i && i < len(chunk) ==> lokI(e, chunk, i) && rokI(e, chunk, i) && isText(lvI(e, chunk, i)) && isText(rvI(e, chunk, i)) && ret[i] == ABool(cmpHolds(val(op), cmp(textOf(lvI(e, chunk, i)), textOf(rvI(e, chunk, i))))))
+//@   ensures[C03] _same: err == nil ==> len(ret) == len(chunk) && (forall i Int :: 0 <= i && i < len(chunk) ==> lokI(e, chunk, i) && rokI(e, chunk, i) && isText(lvI(e, chunk, i)) && isText(rvI(e, chunk, i)) && ret[i] == ABool(cmpHolds(val(op), cmp(textOf(lvI(e, chunk, i)), textOf(rvI(e, chunk, i))))))
 //@   use forall i Int :: doc_bin(e, chunk[i])
 //@   ensures[C03] twin: err == nil && (isOrderOp(e.Op) && rtype(e.Left) == TSTR && val(op) == opSym(e.Op)) ==> rowsOf(e, chunk, ret)
 //@   ensures own: err == nil ==> isnil(ret) || fresh(ret)
@@ -314,7 +314,7 @@ package kvql
 //@   ensures[C05] addfresh: ctx != nil ==> (forall S B :: has(ctx.FieldChunkKeyCaches, S) ==> (old(has(ctx.FieldChunkKeyCaches, S)) && ctx.FieldChunkKeyCaches[S] == old(ctx.FieldChunkKeyCaches[S])) || fresh(ctx.FieldChunkKeyCaches[S]))
 //@   requires wfBin(e)
 //@   assigns ctx.Hit, mapof(ctx.FieldCaches), mapof(ctx.FieldChunkKeyCaches), mapof(ctx.FieldChunkCaches)
-//@   ensures[C03] same: err == nil ==> len(ret) == len(chunk) && (forall i Int :: 0 <= i && i < len(chunk) ==> lokI(e, chunk, i) && rokI(e, chunk, i) && isText(lvI(e, chunk, i)) && isText(rvI(e, chunk, i)) && reOk(textOf(rvI(e, chunk, i))) && ret[i] == ABool(reMatch(textOf(rvI(e, chunk, i)), textOf(lvI(e, chunk, i)))))
+//@   ensures[C03] _same: err == nil ==> len(ret) == len(chunk) && (forall i Int :: 0 <= i && i < len(chunk) ==> lokI(e, chunk, i) && rokI(e, chunk, i) && isText(lvI(e, chunk, i)) && isText(rvI(e, chunk, i)) && reOk(textOf(rvI(e, chunk, i))) && ret[i] == ABool(reMatch(textOf(rvI(e, chunk, i)), textOf(lvI(e, chunk, i)))))
 //@   use forall i Int :: doc_bin(e, chunk[i])
 //@   ensures[C03] twin: err == nil && (e.Op == RegExpMatch) ==> rowsOf(e, chunk, ret)
 //@   ensures own: err == nil ==> isnil(ret) || fresh(ret)
@@ -345,7 +345,7 @@ package kvql
 //@   assigns ctx.Hit, mapof(ctx.FieldCaches), mapof(ctx.FieldChunkKeyCaches), mapof(ctx.FieldChunkCaches)
 //@   ensures own: err == nil ==> isnil(ret) || fresh(ret)
 //@   ensures[C03] shape: err == nil ==> len(ret) == len(chunk) && (forall i Int :: 0 <= i && i < len(chunk) ==> lokI(e, chunk, i))
-//@   ensures[C03] member: err == nil && is(e.Right, *ListExpr) && !number ==> (forall i Int :: 0 <= i && i < len(chunk) ==> ret[i] == ABool(inTextNC(e, chunk, i, nitems(e))))
+//@   ensures[C03] _member: err == nil && is(e.Right, *ListExpr) && !number ==> (forall i Int :: 0 <= i && i < len(chunk) ==> ret[i] == ABool(inTextNC(e, chunk, i, nitems(e))))
 //@   loop 0 (expr)
 //@     invariant[C05] coh: cohChunk(ctx, chunk)
 //@     invariant[C05] added: ctx != nil && len(chunk) > 0 ==> (forall S B :: has(ctx.FieldChunkKeyCaches, S) ==> old(has(ctx.FieldChunkKeyCaches, S)) || fkOf(S) == ck(chunk, 0))
@@ -412,8 +412,8 @@ package kvql
 //@   assigns ctx.Hit, mapof(ctx.FieldCaches), mapof(ctx.FieldChunkKeyCaches), mapof(ctx.FieldChunkCaches)
 //@   ensures[C03] shape: err == nil ==> len(ret) == len(chunk) && bshape(e) && (forall i Int :: 0 <= i && i < len(chunk) ==> lokI(e, chunk, i) && evalok(blo(e), ck(chunk, i), cv(chunk, i)) && evalok(bhi(e), ck(chunk, i), cv(chunk, i)))
 //@   ensures[C03] types: err == nil ==> ite(number, rtype(blo(e)) == TNUMBER && rtype(bhi(e)) == TNUMBER, rtype(blo(e)) == TSTR && rtype(bhi(e)) == TSTR)
-//@   ensures[C03] texts: err == nil && !number ==> (forall i Int :: 0 <= i && i < len(chunk) ==> isText(lvI(e, chunk, i)) && isText(evalv(blo(e), ck(chunk, i), cv(chunk, i))) && isText(evalv(bhi(e), ck(chunk, i), cv(chunk, i))) && cmp(textOf(evalv(blo(e), ck(chunk, i), cv(chunk, i))), textOf(evalv(bhi(e), ck(chunk, i), cv(chunk, i)))) <= 0 && ret[i] == ABool(cmp(textOf(evalv(blo(e), ck(chunk, i), cv(chunk, i))), textOf(lvI(e, chunk, i))) <= 0 && cmp(textOf(lvI(e, chunk, i)), textOf(evalv(bhi(e), ck(chunk, i), cv(chunk, i)))) <= 0))
-//@   ensures[C03] numbers: err == nil && number ==> (forall i Int :: 0 <= i && i < len(chunk) ==> isNum(lvI(e, chunk, i)) && isNum(evalv(blo(e), ck(chunk, i), cv(chunk, i))) && isNum(evalv(bhi(e), ck(chunk, i), cv(chunk, i))) && (isInt(lvI(e, chunk, i)) && isInt(evalv(blo(e), ck(chunk, i), cv(chunk, i))) && isInt(evalv(bhi(e), ck(chunk, i), cv(chunk, i))) ==> intof(evalv(blo(e), ck(chunk, i), cv(chunk, i))) <= intof(evalv(bhi(e), ck(chunk, i), cv(chunk, i))) && ret[i] == ABool(intof(evalv(blo(e), ck(chunk, i), cv(chunk, i))) <= intof(lvI(e, chunk, i)) && intof(lvI(e, chunk, i)) <= intof(evalv(bhi(e), ck(chunk, i), cv(chunk, i))))))
+//@   ensures[C03] _texts: err == nil && !number ==> (forall i Int :: 0 <= i && i < len(chunk) ==> isText(lvI(e, chunk, i)) && isText(evalv(blo(e), ck(chunk, i), cv(chunk, i))) && isText(evalv(bhi(e), ck(chunk, i), cv(chunk, i))) && cmp(textOf(evalv(blo(e), ck(chunk, i), cv(chunk, i))), textOf(evalv(bhi(e), ck(chunk, i), cv(chunk, i)))) <= 0 && ret[i] == ABool(cmp(textOf(evalv(blo(e), ck(chunk, i), cv(chunk, i))), textOf(lvI(e, chunk, i))) <= 0 && cmp(textOf(lvI(e, chunk, i)), textOf(evalv(bhi(e), ck(chunk, i), cv(chunk, i)))) <= 0))
+//@   ensures[C03] _numbers: err == nil && number ==> (forall i Int :: 0 <= i && i < len(chunk) ==> isNum(lvI(e, chunk, i)) && isNum(evalv(blo(e), ck(chunk, i), cv(chunk, i))) && isNum(evalv(bhi(e), ck(chunk, i), cv(chunk, i))) && (isInt(lvI(e, chunk, i)) && isInt(evalv(blo(e), ck(chunk, i), cv(chunk, i))) && isInt(evalv(bhi(e), ck(chunk, i), cv(chunk, i))) ==> intof(evalv(blo(e), ck(chunk, i), cv(chunk, i))) <= intof(evalv(bhi(e), ck(chunk, i), cv(chunk, i))) && ret[i] == ABool(intof(evalv(blo(e), ck(chunk, i), cv(chunk, i))) <= intof(lvI(e, chunk, i)) && intof(lvI(e, chunk, i)) <= intof(evalv(bhi(e), ck(chunk, i), cv(chunk, i))))))
 //@   use forall i Int :: doc_bin(e, chunk[i])
 //@   ensures[C03] twin: err == nil && e.Op == Between && rtype(e.Left) == TSTR && !number ==> rowsOf(e, chunk, ret)
 //@   ensures own: err == nil ==> isnil(ret) || fresh(ret)
@@ -439,7 +439,7 @@ package kvql
 //@   ensures[C05] addfresh: ctx != nil ==> (forall S B :: has(ctx.FieldChunkKeyCaches, S) ==> (old(has(ctx.FieldChunkKeyCaches, S)) && ctx.FieldChunkKeyCaches[S] == old(ctx.FieldChunkKeyCaches[S])) || fresh(ctx.FieldChunkKeyCaches[S]))
 //@   requires wfBin(e)
 //@   assigns ctx.Hit, mapof(ctx.FieldCaches), mapof(ctx.FieldChunkKeyCaches), mapof(ctx.FieldChunkCaches)
-//@   ensures[C03] same: err == nil ==> len(ret) == len(chunk) && (forall i Int :: 0 <= i && i < len(chunk) ==> lokI(e, chunk, i) && rokI(e, chunk, i) && isText(lvI(e, chunk, i)) && isText(rvI(e, chunk, i)) && isText(ret[i]) && textOf(ret[i]) == cat(textOf(lvI(e, chunk, i)), textOf(rvI(e, chunk, i))))
+//@   ensures[C03] _same: err == nil ==> len(ret) == len(chunk) && (forall i Int :: 0 <= i && i < len(chunk) ==> lokI(e, chunk, i) && rokI(e, chunk, i) && isText(lvI(e, chunk, i)) && isText(rvI(e, chunk, i)) && isText(ret[i]) && textOf(ret[i]) == cat(textOf(lvI(e, chunk, i)), textOf(rvI(e, chunk, i))))
 //@   ensures own: err == nil ==> isnil(ret) || fresh(ret)
 //@   loop 0
 //@     invariant[C05] coh: cohChunk(ctx, chunk)
@@ -456,7 +456,7 @@ package kvql
 // the operators whose helpers are proved above.
 //@ define provedOp(e *BinaryOpExpr) Bool = e.Op == Eq || e.Op == NotEq || e.Op == PrefixMatch || e.Op == And || e.Op == KWAnd || e.Op == Or || e.Op == KWOr || isOrderOp(e.Op) || e.Op == Sub || e.Op == Mul || e.Op == Div || (e.Op == Add && rtype(e.Left) != TSTR) || (e.Op == Between && rtype(e.Left) == TSTR) || e.Op == RegExpMatch
 //@ func (e *BinaryOpExpr) ExecuteBatch(chunk []KVPair, ctx *ExecuteCtx) (ret []any, err error) implements Expression.ExecuteBatch
-//@   props C03
+//@   props C03 C05
 //@   ifaceassumed same
 //@   requires wfBetween(e)
 //@   ensures[C03] twin: err == nil && provedOp(e) ==> rowsOf(e, chunk, ret)
